@@ -68,9 +68,6 @@ def parseHandle (t : String) : Option Nat :=
 structure St where
   w    : World
   hist : Lin.Hist
-deriving Inhabited
-
-instance : Inhabited World := ⟨World.init⟩
 
 def bad (s : St) : St × String := (s, "bad-op")
 
